@@ -178,6 +178,12 @@ Lemma poll_add_failure_null_call_refuted :
             CmdOp (OPollAdd Low 100 1 3); CmdOp (OPollDel 100); CmdOp (OPollMod High 100 5 11)] []))) = true.
 Proof. vm_compute. reflexivity. Qed.
 
+(* the real kernel's epoll showed, in the constants program, the semantics the virtual interest list of the harness and
+   of the model implements: ADD on a present descriptor fails with EEXIST, MOD / DEL on an absent one with ENOENT, MOD
+   replaces the user data, readiness is level triggered, close drops the registration and frees the number *)
+Lemma kernel_model_probe : LOOP_KERNEL_EPOLL_AS_MODELLED = 1.
+Proof. reflexivity. Qed.
+
 (* the tree the constants were generated from contains both repairs *)
 Lemma tree_repaired : fx_sigdel tree_fixes = true /\ fx_polladd tree_fixes = true.
 Proof. split; reflexivity. Qed.
